@@ -66,4 +66,70 @@ w("//@   ensures @C01 str.badop: %s ==> err != nil && stackSame(vm)" % known([c 
 w("//@   ensures str.valid: stackValid(vm)")
 w("//@   panics never")
 w()
-print("\n".join(out))
+if len(sys.argv) == 1:
+    print("\n".join(out))
+
+# ================================================================ executeBinaryOperation
+def binop():
+    out.clear()
+    D2 = "old(depth(vm)) >= 2"
+    L, R = "T2(vm)", "T1(vm)"
+    w("//@ func (vm *VM) executeBinaryOperation(op code.Opcode) (err error)")
+    w("//@   requires vmOK(vm) && stackValid(vm)")
+    w("//@   modifies vm.stack.entries, vm.stack.entries[*]")
+    ok = "err == nil && replaced2(vm)"
+    notLogic = "op != code.OpAnd && op != code.OpOr"
+    II = "%s && isInt(%s) && isInt(%s)" % (D2, L, R)
+    for n, o in arith:
+        w("//@   ensures @C01 bin.int.%s: %s && op == code.Op%s ==> %s && topInt(vm, wrap64(old(ival(%s)) %s old(ival(%s))))" % (n.lower(), II, n, ok, L, o, R))
+    w("//@   ensures @C01 bin.int.div: %s && op == code.OpDiv && old(ival(%s)) != 0 ==> %s && topInt(vm, wrap64(old(ival(%s)) / old(ival(%s))))" % (II, R, ok, L, R))
+    w("//@   ensures @C01 bin.int.div0: %s && op == code.OpDiv && old(ival(%s)) == 0 ==> err != nil" % (II, R))
+    w("//@   ensures @C01 bin.int.mod: %s && op == code.OpMod && old(ival(%s)) != 0 ==> %s && topInt(vm, old(ival(%s)) %% old(ival(%s)))" % (II, R, ok, L, R))
+    w("//@   ensures @C01 @pinned bin.int.power: %s && op == code.OpPower ==> %s && topInt(vm, f2i(pow(i2f(old(ival(%s))), i2f(old(ival(%s))))))" % (II, ok, L, R))
+    for n, o in cmps:
+        w("//@   ensures @C01 bin.int.%s: %s && op == code.Op%s ==> %s && topBool(vm, old(ival(%s)) %s old(ival(%s)))" % (n.lower(), II, n, ok, L, o, R))
+    # float mixes
+    NF = "%s && isNum(%s) && isNum(%s) && !(isInt(%s) && isInt(%s))" % (D2, L, R, L, R)
+    FL, FR = "old(fl(%s))" % L, "old(fl(%s))" % R
+    for n, o in arith:
+        w("//@   ensures @C01 bin.float.%s: %s && op == code.Op%s ==> %s && topFloat(vm, %s %s %s)" % (n.lower(), NF, n, ok, FL, o, FR))
+    w("//@   ensures @C01 bin.float.div: %s && op == code.OpDiv && !fzero(%s) ==> %s && topFloat(vm, %s / %s)" % (NF, FR, ok, FL, FR))
+    w("//@   ensures @C01 bin.float.div0: %s && op == code.OpDiv && fzero(%s) ==> err != nil" % (NF, FR))
+    w("//@   ensures @C01 @pinned bin.float.mod: %s && op == code.OpMod && f2i(%s) != 0 ==> %s && topFloat(vm, i2f(f2i(%s) %% f2i(%s)))" % (NF, FR, ok, FL, FR))
+    w("//@   ensures @C01 @pinned bin.float.power: %s && op == code.OpPower ==> %s && topFloat(vm, pow(%s, %s))" % (NF, ok, FL, FR))
+    for n, o in cmps:
+        w("//@   ensures @C01 bin.float.%s: %s && op == code.Op%s ==> %s && topBool(vm, %s %s %s)" % (n.lower(), NF, n, ok, FL, o, FR))
+    # numbers: operators that do not accept numbers
+    w("//@   ensures @C01 bin.num.badop: %s && isNum(%s) && isNum(%s) && (op == code.OpMatches || op == code.OpNotMatches || op == code.OpArrayIn) ==> err != nil" % (D2, L, R))
+    # strings
+    SS = "%s && isStr(%s) && isStr(%s)" % (D2, L, R)
+    for n, o in cmps:
+        w("//@   ensures @C01 bin.str.%s: %s && op == code.Op%s ==> %s && topBool(vm, old(sval(%s)) %s old(sval(%s)))" % (n.lower(), SS, n, ok, L, o, R))
+    w("//@   ensures @C01 bin.str.add: %s && op == code.OpAdd ==> %s && topStr(vm, old(sval(%s)) + old(sval(%s)))" % (SS, ok, L, R))
+    w("//@   ensures @C01 @C16 bin.str.in: %s && op == code.OpArrayIn ==> %s && topBool(vm, strContains(old(sval(%s)), old(sval(%s))))" % (SS, ok, R, L))
+    w("//@   ensures @C01 bin.str.badop: %s && (op == code.OpSub || op == code.OpMul || op == code.OpDiv || op == code.OpMod || op == code.OpPower || op == code.OpMatches || op == code.OpNotMatches) ==> err != nil" % SS)
+    # string ~= regexp
+    w("//@   ensures @C01 bin.match.type: %s && isStr(%s) && isRegexp(%s) && (op == code.OpMatches || op == code.OpNotMatches) && err == nil ==> replaced2(vm) && isBool(top(vm))" % (D2, L, R))
+    w("//@   ensures @C01 bin.match.badop: %s && isStr(%s) && isRegexp(%s) && op != code.OpMatches && op != code.OpNotMatches && %s && op != code.OpArrayIn ==> err != nil" % (D2, L, R, notLogic))
+    # booleans
+    BB = "%s && isBool(%s) && isBool(%s)" % (D2, L, R)
+    w("//@   ensures @C01 bin.bool.equal: %s && op == code.OpEqual ==> %s && topBool(vm, old(bval(%s)) == old(bval(%s)))" % (BB, ok, L, R))
+    w("//@   ensures @C01 bin.bool.notequal: %s && op == code.OpNotEqual ==> %s && topBool(vm, old(bval(%s)) != old(bval(%s)))" % (BB, ok, L, R))
+    # logic: every pair of types
+    w("//@   ensures @C01 @C05 bin.and: %s && op == code.OpAnd ==> %s && topBool(vm, old(truthy(%s)) && old(truthy(%s)))" % (D2, ok, L, R))
+    w("//@   ensures @C01 @C05 bin.or: %s && op == code.OpOr ==> %s && topBool(vm, old(truthy(%s)) || old(truthy(%s)))" % (D2, ok, L, R))
+    # in: right operand must be an array (or string in string)
+    w("//@   ensures @C01 @C16 bin.in.notarray: %s && op == code.OpArrayIn && !isArray(%s) && !(isStr(%s) && isStr(%s)) ==> err != nil" % (D2, R, L, R))
+    # mixed types
+    w("//@   ensures @C01 bin.mismatch: %s && tag(%s) != tag(%s) && !(isNum(%s) && isNum(%s)) && !(isStr(%s) && isRegexp(%s)) && %s && op != code.OpArrayIn ==> err != nil" % (D2, L, R, L, R, L, R, notLogic))
+    # same non-numeric, non-string, non-boolean type: arithmetic and ordering are errors
+    w("//@   ensures @C01 bin.nonnum: %s && tag(%s) == tag(%s) && !isNum(%s) && !isStr(%s) && !isBool(%s) && %s && op != code.OpArrayIn && op != code.OpEqual && op != code.OpNotEqual ==> err != nil" % (D2, L, R, L, L, L, notLogic))
+    w("//@   ensures @C18 bin.underflow: old(depth(vm)) < 2 ==> err != nil")
+    w("//@   ensures bin.valid: stackValid(vm)")
+    w("//@   panics when %s && ((isNum(%s) && isNum(%s) && op == code.OpMod && %s && (isInt(%s) && isInt(%s) ? ival(%s) == 0 : f2i(fl(%s)) == 0)) || (isStr(%s) && isRegexp(%s) && %s) || (op == code.OpArrayIn && isArray(%s) && %s && !(isNum(%s) && isNum(%s)) && !(isStr(%s) && isStr(%s))))" % (
+        "depth(vm) >= 2", "TT2(vm)", "TT1(vm)", "true", "TT2(vm)", "TT1(vm)", "TT1(vm)", "TT1(vm)", "TT2(vm)", "TT1(vm)", notLogic, "TT1(vm)", "true", "TT2(vm)", "TT1(vm)", "TT2(vm)", "TT1(vm)"))
+    w()
+    print("\n".join(out))
+
+if len(sys.argv) > 1 and sys.argv[1] == "binop":
+    binop()
